@@ -1,14 +1,20 @@
 (* props/C06.v - NTT is the discrete Fourier transform over the field; INTT is its inverse.
    Statements only; the proofs are in proofs/Ntt*.v.  Vocabulary:
-     ntt_b, intt_b, ...   model/Ntt.v instantiated with the regenerated base-field operations (Montgomery words)
-     canon, bden          proofs/BFieldProofs.v, proofs/BFieldOk.v: canonical word, denoted element of Fp
-     dft, idft            spec/Dft.v over the abstract field record fp_field (lib/FieldTheory.v) *)
+     ntt_b, intt_b, ntt_noswap_b, ...   model/Ntt.v instantiated with the regenerated base-field operations
+                                         (vectors of Montgomery words);  ntt_x, ... vectors of XFieldElement
+                                         (triples of words) with base-field twiddles
+     canon, bden          proofs/BFieldProofs.v, BFieldOk.v: canonical word, denoted element of Fp
+     okX, xden            proofs/NttXfe.v: triple of canonical words, denoted element of Fp^3
+     dft, idft, dft3, idft3, bitrev_list     spec/Dft.v over fp_field (lib/FieldTheory.v)
+     brev l               proofs/NttLists.v: the reordering by bit reversal (= bitrev_list l, C06_brev_is_bitrev)
+   None = panic.  The bound l <= 31 is the one the code accepts (u32 length with 2^32 excluded). *)
 From Coq Require Import ZArith List.
 From TF Require Import Word BFieldGen BField XField FieldOps Lucas FieldTheory BFieldProofs BFieldOk NttRoots Ntt Dft
-  NttDft NttProofs.
+  NttLists NttDft NttBitrev NttProofs NttXfe NttNoswap.
 Import ListNotations.
 Open Scope Z_scope.
 
+(* ---------------------------------------------------------------- the table *)
 (* every tabulated root (regenerated table, 34 entries: keys 0, 2^0 .. 2^32): r^n = 1 and r^(n/2) = -1 *)
 Theorem C06_roots_table : forall n r, In (n, r) PRIMITIVE_ROOTS ->
   0 <= r < Lucas.P /\ r ^ n mod Lucas.P = 1 /\ (2 <= n -> r ^ (n / 2) mod Lucas.P = Lucas.P - 1).
@@ -30,7 +36,7 @@ Print Assumptions C06_roots_exact_order.
 Example C06_roots_exact_order_ex : exists omega, primitive_root_of_unity (2 ^ Z.of_nat 32) = Some omega.
 Proof. apply root_exists. auto. Qed.
 
-(* the forward transform: for every k <= 31 and every vector of 2^k canonical elements *)
+(* ---------------------------------------------------------------- base field *)
 Theorem C06_ntt_is_dft : forall l x, (l <= 31)%nat -> length x = (2 ^ l)%nat -> Forall canon x ->
   exists y omega, primitive_root_of_unity (2 ^ Z.of_nat l) = Some omega /\ ntt_b x = Some y /\
     Forall canon y /\ length y = length x /\ map bden y = dft fp_field (bden omega) (map bden x).
@@ -55,15 +61,104 @@ Theorem C06_ntt_intt : forall l x, (l <= 31)%nat -> length x = (2 ^ l)%nat -> Fo
 Proof. exact ntt_intt_b. Qed.
 Print Assumptions C06_ntt_intt.
 
-(* length 0 and the documented panics *)
-Theorem C06_ntt_nil : ntt_b [] = Some [] /\ intt_b [] = Some [].
-Proof. exact ntt_b_nil. Qed.
+(* the abstract inversion theorem behind them: idft inverts dft for any primitive 2^l-th root w with w^(n/2) = -1 *)
+Theorem C06_idft_dft : forall l w x, length x = (2 ^ l)%nat -> half_root fp_field w l -> w <> k0 fp_field ->
+  idft fp_field w (dft fp_field w x) = x /\ dft fp_field w (idft fp_field w x) = x.
+Proof.
+  exact (fun l w x Hx Hw H0 => conj (idft_dft fp_field fp_two_neq_0 l w x Hx Hw H0) (dft_idft fp_field fp_two_neq_0 l w x Hx Hw H0)).
+Qed.
+Print Assumptions C06_idft_dft.
+
+(* ---------------------------------------------------------------- extension field (base-field twiddles) *)
+Theorem C06_ntt_x_is_dft : forall l x, (l <= 31)%nat -> length x = (2 ^ l)%nat -> Forall okX x ->
+  exists y omega, primitive_root_of_unity (2 ^ Z.of_nat l) = Some omega /\ ntt_x x = Some y /\
+    Forall okX y /\ length y = length x /\ map xden y = dft3 fp_field (bden omega) (map xden x).
+Proof. exact ntt_x_is_dft. Qed.
+Print Assumptions C06_ntt_x_is_dft.
+Theorem C06_intt_x_is_idft : forall l x, (l <= 31)%nat -> length x = (2 ^ l)%nat -> Forall okX x ->
+  exists y omega, primitive_root_of_unity (2 ^ Z.of_nat l) = Some omega /\ intt_x x = Some y /\
+    Forall okX y /\ length y = length x /\ map xden y = idft3 fp_field (bden omega) (map xden x).
+Proof. exact intt_x_is_idft. Qed.
+Print Assumptions C06_intt_x_is_idft.
+Theorem C06_intt_ntt_x : forall l x, (l <= 31)%nat -> length x = (2 ^ l)%nat -> Forall okX x ->
+  exists y, ntt_x x = Some y /\ intt_x y = Some x.
+Proof. exact intt_ntt_x. Qed.
+Print Assumptions C06_intt_ntt_x.
+Theorem C06_ntt_intt_x : forall l x, (l <= 31)%nat -> length x = (2 ^ l)%nat -> Forall okX x ->
+  exists y, intt_x x = Some y /\ ntt_x y = Some x.
+Proof. exact ntt_intt_x. Qed.
+Print Assumptions C06_ntt_intt_x.
+
+(* ---------------------------------------------------------------- the bit-reversed variants *)
+Theorem C06_bitreverse_order : forall (l : nat) (x : list Z), (l <= 64)%nat -> length x = (2 ^ l)%nat ->
+  bitreverse_order x = Some (brev l x) /\ bitreverse_order (brev l x) = Some x.
+Proof.
+  intros l x Hl Hx. split; [apply bitreverse_order_pow2; assumption|].
+  rewrite (bitreverse_order_pow2 l) by (try apply brev_length; assumption). rewrite brev_invol by exact Hx. reflexivity.
+Qed.
+Print Assumptions C06_bitreverse_order.
+Theorem C06_brev_is_bitrev : forall (l : nat) (d : Z) (x : list Z), length x = (2 ^ l)%nat ->
+  brev l x = bitrev_list l d x.
+Proof. intros l d x. apply brev_bitrev_list. Qed.
+Print Assumptions C06_brev_is_bitrev.
+
+(* ntt_noswap = ntt followed by bitreverse_order *)
+Theorem C06_ntt_noswap : forall dbg l x, (l <= 31)%nat -> length x = (2 ^ l)%nat -> Forall canon x ->
+  exists y r, ntt_b x = Some y /\ bitreverse_order y = Some r /\ ntt_noswap_b dbg x = Some r.
+Proof. exact ntt_noswap_b_spec. Qed.
+Print Assumptions C06_ntt_noswap.
+Theorem C06_ntt_noswap_x : forall dbg l x, (l <= 31)%nat -> length x = (2 ^ l)%nat -> Forall okX x ->
+  exists y r, ntt_x x = Some y /\ bitreverse_order y = Some r /\ ntt_noswap_x dbg x = Some r.
+Proof. exact ntt_noswap_x_spec. Qed.
+Print Assumptions C06_ntt_noswap_x.
+(* intt_noswap on the bit-reversed array, then unscale = intt *)
+Theorem C06_intt_noswap_unscale : forall dbg l y, (l <= 31)%nat -> length y = (2 ^ l)%nat -> Forall canon y ->
+  exists r z z', bitreverse_order y = Some r /\ intt_noswap_b dbg r = Some z /\ unscale_b z = Some z' /\
+                 intt_b y = Some z'.
+Proof. exact intt_noswap_unscale_b. Qed.
+Print Assumptions C06_intt_noswap_unscale.
+Theorem C06_noswap_round_trip : forall dbg l x, (l <= 31)%nat -> length x = (2 ^ l)%nat -> Forall canon x ->
+  exists r z, ntt_noswap_b dbg x = Some r /\ intt_noswap_b dbg r = Some z /\ unscale_b z = Some x.
+Proof. exact noswap_round_trip_b. Qed.
+Print Assumptions C06_noswap_round_trip.
+
+(* ---------------------------------------------------------------- length 0 and the documented panics *)
+Theorem C06_ntt_nil : ntt_b [] = Some [] /\ intt_b [] = Some [] /\ ntt_x [] = Some [] /\ intt_x [] = Some [].
+Proof. exact (conj (proj1 ntt_b_nil) (conj (proj2 ntt_b_nil) ntt_x_nil)). Qed.
 Print Assumptions C06_ntt_nil.
 Theorem C06_ntt_panics_not_pow2 : forall x : list Z, length x <> 0%nat -> (forall l, length x <> (2 ^ l)%nat) ->
   ntt_b x = None /\ intt_b x = None.
 Proof. exact (ntt_panics_not_pow2 bfe_ops bfe_ops bb_act). Qed.
 Print Assumptions C06_ntt_panics_not_pow2.
+Theorem C06_ntt_x_panics_not_pow2 : forall x : list xfe, length x <> 0%nat -> (forall l, length x <> (2 ^ l)%nat) ->
+  ntt_x x = None /\ intt_x x = None.
+Proof. exact (ntt_panics_not_pow2 bfe_ops xfe_ops xb_act). Qed.
+Print Assumptions C06_ntt_x_panics_not_pow2.
 Theorem C06_ntt_panics_too_long : forall x : list Z, Z.of_nat (length x) > 4294967295 ->
   ntt_b x = None /\ intt_b x = None.
 Proof. exact (ntt_panics_too_long bfe_ops bfe_ops bb_act). Qed.
 Print Assumptions C06_ntt_panics_too_long.
+Theorem C06_noswap_panics_not_pow2 : forall dbg (x : list Z), length x <> 0%nat -> (forall l, length x <> (2 ^ l)%nat) ->
+  ntt_noswap_b dbg x = None /\ intt_noswap_b dbg x = None.
+Proof. exact (noswap_panics_not_pow2 bfe_ops bb_act). Qed.
+Print Assumptions C06_noswap_panics_not_pow2.
+(* length 0 through the noswap functions: identity in a release build, debug_assert panic in a checked build;
+   unscale of the empty array panics (inverse of zero) *)
+Theorem C06_noswap_nil :
+  ntt_noswap_b false [] = Some [] /\ intt_noswap_b false [] = Some [] /\
+  ntt_noswap_b true [] = None /\ intt_noswap_b true [] = None /\
+  ntt_noswap_x false [] = Some [] /\ intt_noswap_x false [] = Some [] /\
+  ntt_noswap_x true [] = None /\ intt_noswap_x true [] = None.
+Proof. exact noswap_nil. Qed.
+Print Assumptions C06_noswap_nil.
+Theorem C06_unscale_nil : unscale_b [] = None.
+Proof. exact unscale_b_nil. Qed.
+Print Assumptions C06_unscale_nil.
+
+(* ---------------------------------------------------------------- any primitive root *)
+Theorem C06_ntt_unchecked_any_root : forall l x omega, (l <= 32)%nat -> length x = (2 ^ l)%nat -> Forall canon x ->
+  canon omega -> half_root fp_field (bden omega) l ->
+  exists y, ntt_unchecked bfe_ops bfe_ops bb_act x omega l = Some y /\ Forall canon y /\ length y = length x /\
+            map bden y = dft fp_field (bden omega) (map bden x).
+Proof. exact ntt_unchecked_b_any_root. Qed.
+Print Assumptions C06_ntt_unchecked_any_root.
